@@ -1052,7 +1052,7 @@ func (db *BadgerDB) DeleteAll(ctx storage.Context) error {
 		defer it.Close()
 		for it.Seek(minKey); it.Valid(); it.Next() {
 			item := it.Item()
-			k := item.Key()
+			k := item.KeyCopy(nil)
 			storage.StoreKeyBytesRead <- len(k)
 			// Did we pass the final key?
 			if bytes.Compare(k, maxKey) > 0 {
